@@ -68,6 +68,7 @@ fn run_inner(case: &str, args: &Value) -> Option<Outcome> {
         "c29_loader" => Some(c29::loader(args)),
         "c09_validate" => Some(c09::validate(args)),
         "c12_parse" => Some(c12::parse(args)),
+        "c12_multipart" => Some(c12::multipart(args)),
         "c15_quoted" => Some(strings::quoted(args)),
         "c15_values" => Some(strings::value_roundtrip(args)),
         "c17_escape" => Some(strings::escape(args)),
@@ -108,6 +109,7 @@ pub fn search(case: &str, seed: u64, open: &[String]) -> Option<SearchResult> {
         "c29_loader" => Box::new(c29::inputs(seed)),
         "c09_validate" => Box::new(c09::inputs(seed, open)),
         "c12_parse" => Box::new(c12::parse_inputs(seed)),
+        "c12_multipart" => Box::new(c12::multipart_inputs(seed)),
         "c15_quoted" | "c17_escape" => Box::new(strings::string_inputs(seed)),
         "c15_values" => Box::new(strings::value_inputs(seed)),
         "c17_input_value" | "c17_sdl" => Box::new(c17_sdl::inputs(seed, open)),
